@@ -8,7 +8,8 @@
                              in one grouped field set)
      sch_exec_wf s         : type names are unique in the schema's type map (it is an IndexMap), and no object or
                              interface type declares a field with the name of a meta-field
-                             (__typename / __schema / __type; names starting with "__" are reserved) *)
+                             (__typename / __schema / __type; names starting with "__" are reserved), and the
+                             built-in scalar String (the type of __typename) is in the type map *)
 From Coq Require Import ZArith.
 From ApolloVerif Require Import Base.Chars Ast.Ast Schema.Model Run.Json Run.Coerce Run.TypedDoc Run.Prog Run.Execute
   Run.ExecTop.
@@ -64,7 +65,8 @@ Definition sch_exec_wf (s : schema) : bool :=
     | EObject _ _ _ _ fs _ | EInterface _ _ _ _ fs _ =>
         forallb (fun f => negb (td_is_meta_name (fd_name (c_val f)))) fs
     | _ => true
-    end) (sch_types s).
+    end) (sch_types s) &&
+  match sch_get_type s td_String with Some (EScalar _ _ _ _) => true | _ => false end.
 
 (* ---------------------------------------------------------------- measures *)
 (* nesting of inline fragments in a selection list, not looking into fields: what collect_fields recurses on *)
